@@ -175,6 +175,40 @@ theorem upres_pRetract (T : List Tup) (id : Id) (x : Option Nat) : UPres T (pRet
       | exact h1
       | exact markChanged_uinv h1 (load_new' hl) rfl rfl
 
+theorem upres_pCheck2 (T : List Tup) (a b : Id) (pred : Staged → Staged → Option Err) : UPres T (pCheck2 a b pred) := by
+  intro s tx e h
+  unfold pCheck2
+  split
+  · exact h.same rfl
+  · rename_i tx1 x hl
+    have h1 := load_uinv h hl
+    split
+    · exact h1.same rfl
+    · rename_i tx2 y hl2
+      have h2 := load_uinv h1 hl2
+      split <;> exact h2.same rfl
+
+theorem upres_pExpectStatus (T : List Tup) (id : Id) (x : Option Nat) : UPres T (pExpectStatus id x) := by
+  intro s tx e h
+  unfold pExpectStatus
+  split
+  · exact h.same rfl
+  · exact upres_pCheck2 _ _ _ _ _ _ _ h
+
+theorem upres_pEdit (T : List Tup) (id : Id) (k : Option Kind) (g : Staged → Option Err) (f : Row → Row) (al : Bool)
+    (op : Op) : UPres T (pEdit id k g f al op) := by
+  intro s tx e h
+  unfold pEdit
+  split
+  · exact h.same rfl
+  · rename_i tx1 y hl
+    have h1 := load_uinv h hl
+    repeat' split
+    all_goals first
+      | exact h1.same rfl
+      | exact h1
+      | exact markChanged_uinv h1 (load_new' hl) rfl rfl
+
 theorem upres_pAct (T : List Tup) (id : Id) (a : Act) : UPres T (pAct id a) := by
   intro s tx e h
   unfold pAct
@@ -206,7 +240,7 @@ theorem UInv.mint {T : List Tup} {s : Store} {tx : Tx} {e : Option Err} (h : UIn
     intro t hf j el hj hel
     simp only [mintShell, setElem] at hel
     split at hel
-    · cases hel; simp [shellElem]
+    · cases hel; simp [shellElem, stubRow]
     · exact hf j el hj hel
   exact { absent := fun q hq hk hn t ht => hfree t (h.absent q hq hk hn t ht),
           distinct := h.distinct,
@@ -269,6 +303,9 @@ macro "upres_chain" h:ident : tactic => `(tactic|
     | exact upres_pRetract _ _ _ _ _ _ $h
     | exact upres_pPurge _ _ _ _ _ _ $h
     | exact upres_pAssign _ _ _ _ _ _ $h
+    | exact upres_pEdit _ _ _ _ _ _ _ _ _ _ $h
+    | exact upres_pCheck2 _ _ _ _ _ _ _ $h
+    | exact upres_pExpectStatus _ _ _ _ _ _ $h
     | exact upres_pFail _ _ _ _ _ $h
     | exact upres_pStageNewPlain _ _ _ rfl _ _ _ $h
     | exact upres_pGuard _ _ _
@@ -276,6 +313,9 @@ macro "upres_chain" h:ident : tactic => `(tactic|
     | exact upres_pExpect _ _ _
     | exact upres_pBind _ _ _
     | exact upres_pAssign _ _ _
+    | exact upres_pEdit _ _ _ _ _ _ _
+    | exact upres_pCheck2 _ _ _ _
+    | exact upres_pExpectStatus _ _ _
     | exact upres_pStageNewPlain _ _ _ rfl
     | (intro t ht; exact ht)
     | apply UInv.andThen
@@ -352,5 +392,9 @@ theorem applyClause_uinv (c : Clause) (s : Store) (tx : Tx) (e : Option Err) (hw
   | setState t to expect => simp only [applyClause]; (repeat' split) <;> upres_chain h
   | retract t expect => simp only [applyClause]; (repeat' split) <;> upres_chain h
   | purge t bad => simp only [applyClause]; (repeat' split) <;> upres_chain h
+  | supersede t b expect => simp only [applyClause]; (repeat' split) <;> upres_chain h
+  | correct t b => simp only [applyClause]; (repeat' split) <;> upres_chain h
+  | transition t to expect => simp only [applyClause]; (repeat' split) <;> upres_chain h
+  | setRetention t v expect => simp only [applyClause]; (repeat' split) <;> upres_chain h
 
 end AndaVerif.Tx
